@@ -206,6 +206,7 @@ func streamRListen(c *ctx) {
 					}
 				},
 				onError:     func(error) { mu.Lock(); errs++; mu.Unlock() },
+				stop:        n%3 == 2,
 			}
 			q := make(chan os.Signal, 1)
 			done := make(chan error, 1)
@@ -306,11 +307,12 @@ type cbListener struct {
 	onConnected func()
 	onEvent     func(*types.Status)
 	onError     func(error)
+	stop        bool // OnError returns false
 }
 
 func (l *cbListener) OnConnected()            { l.onConnected() }
 func (l *cbListener) OnEvent(s *types.Status) { l.onEvent(s) }
-func (l *cbListener) OnError(err error) bool  { l.onError(err); return true }
+func (l *cbListener) OnError(err error) bool  { l.onError(err); return !l.stop }
 
 // discovery against a responder that answers the broadcast with several datagrams
 func streamRDiscover(c *ctx) {
